@@ -30,96 +30,247 @@ func isCleanCall(ins ssa.Instruction) (ssa.CallInstruction, bool) {
 	return nil, false
 }
 
-// ruleExecuteThenClean: wherever the data returned by Executor.Execute leaves the function
-// (Result.Data / Response.Data store, return operand), a Clean call on that very value
-// dominates that point.
+// dataEscape is a point at which a tracked data map leaves a function: a store into an object, a
+// return, a send, or a call of code that keeps or passes it on. cleaned says whether a Clean
+// call (with a planner plan's scrub set) on the map dominates the point inside that function.
+type dataEscape struct {
+	ins     ssa.Instruction
+	cleaned bool
+	result  int // for returns: which result carries the map
+}
+
+// dataEscapes follows v (a data map) through fn. A function of the module that receives the
+// map is looked into: handing the map to it is an escape exactly when the map escapes there
+// without having been cleaned there (a builder `newResult(index, data, errs)` stores it into
+// the Result it returns; a helper that only reads it does not matter).
+func (r *Run) dataEscapes(fn *ssa.Function, v ssa.Value, depth int, badRecv *[]ssa.CallInstruction) []dataEscape {
+	seen := map[ssa.Value]bool{}
+	var order []ssa.Value
+	var pts []ssa.Instruction
+	var follow func(v ssa.Value)
+	follow = func(v ssa.Value) {
+		if seen[v] || v.Referrers() == nil {
+			return
+		}
+		seen[v] = true
+		order = append(order, v)
+		for _, ref := range *v.Referrers() {
+			switch x := ref.(type) {
+			case *ssa.Store:
+				if x.Val != v {
+					continue
+				}
+				if al, ok := x.Addr.(*ssa.Alloc); ok {
+					// spilled to a local: the loads of that cell carry the same map
+					for _, i2 := range allInstrs(fn) {
+						if ld, ok := i2.(*ssa.UnOp); ok && ld.Op == token.MUL && ld.X == ssa.Value(al) {
+							follow(ld)
+						}
+					}
+					// a local captured by a literal is out of sight
+					for _, r2 := range *al.Referrers() {
+						if _, ok := r2.(*ssa.MakeClosure); ok {
+							pts = append(pts, x)
+						}
+					}
+					continue
+				}
+				pts = append(pts, x)
+			case *ssa.MapUpdate:
+				if x.Value == v {
+					pts = append(pts, x)
+				}
+			case *ssa.Send:
+				if x.X == v {
+					pts = append(pts, x)
+				}
+			case *ssa.Return:
+				pts = append(pts, x)
+			case *ssa.Phi:
+				follow(x)
+			case *ssa.MakeInterface:
+				follow(x)
+			case *ssa.ChangeType:
+				follow(x)
+			case *ssa.MakeClosure:
+				pts = append(pts, x)
+			case ssa.CallInstruction:
+				if _, ok := isCleanCall(x); ok {
+					continue
+				}
+				c := x.Common()
+				if _, isB := c.Value.(*ssa.Builtin); isB {
+					continue
+				}
+				var callee *ssa.Function
+				if sc := c.StaticCallee(); sc != nil {
+					if d := r.P.declared(sc); inModule(d) && d.Blocks != nil {
+						callee = d
+					}
+				}
+				if _, isCall := x.(*ssa.Call); !isCall || callee == nil || depth >= 3 || c.IsInvoke() {
+					pts = append(pts, x)
+					continue
+				}
+				for i, a := range c.Args {
+					if a != v || i >= len(callee.Params) {
+						continue
+					}
+					for _, e := range r.dataEscapes(callee, callee.Params[i], depth+1, badRecv) {
+						if !e.cleaned {
+							pts = append(pts, x)
+							break
+						}
+					}
+				}
+			}
+		}
+	}
+	follow(v)
+	var cleans []ssa.CallInstruction
+	for _, sv := range order {
+		for _, ref := range *sv.Referrers() {
+			if ci, ok := isCleanCall(ref); ok && len(ci.Common().Args) >= 2 && ci.Common().Args[1] == sv {
+				if !r.cleanReceiverOK(ci) {
+					if badRecv != nil {
+						*badRecv = append(*badRecv, ci)
+					}
+					continue
+				}
+				cleans = append(cleans, ci)
+			}
+		}
+	}
+	var out []dataEscape
+	done := map[ssa.Instruction]bool{}
+	for _, p := range pts {
+		if done[p] {
+			continue
+		}
+		done[p] = true
+		e := dataEscape{ins: p}
+		for _, c := range cleans {
+			if instrDominates(c, p) {
+				e.cleaned = true
+			}
+		}
+		if ret, ok := p.(*ssa.Return); ok {
+			for i, rv := range ret.Results {
+				if seen[rv] || seen[unwrap(rv)] {
+					e.result = i
+				}
+			}
+		}
+		out = append(out, e)
+	}
+	return out
+}
+
+// ruleExecuteThenClean: wherever the data returned by Executor.Execute leaves the code that
+// plays the given roles (Result.Data / Response.Data store, return operand, hand-over to other
+// code), a Clean call on that very map dominates that point. The Execute call is looked for
+// in the role function and in the functions of its package it calls (the body of the
+// per-operation closure may live in a method); data a helper returns unscrubbed is followed
+// into the callers of that helper.
 func ruleExecuteThenClean(fnNames ...string) ruleFn {
 	return func(r *Run) {
 		const rule = "R5.clean"
 		n := 0
-		var fns []*ssa.Function
 		for _, role := range fnNames {
-			fns = append(fns, r.AnchorRole(rule, role)...)
-		}
-		for _, fn := range fns {
-			name := fnName(fn)
-			for _, ins := range allInstrs(fn) {
-				call, ok := ins.(*ssa.Call)
-				if !ok || !call.Call.IsInvoke() || call.Call.Method.Name() != "Execute" || namedOf(call.Call.Value.Type()) != modPath+"/executor.Executor" {
-					continue
-				}
-				var data ssa.Value
-				for _, ref := range *call.Referrers() {
-					if ex, ok := ref.(*ssa.Extract); ok && ex.Index == 0 {
-						data = ex
+			roots := r.AnchorRole(rule, role)
+			if len(roots) == 0 {
+				continue
+			}
+			isRoot := map[*ssa.Function]bool{}
+			for _, f := range roots {
+				isRoot[f] = true
+			}
+			pkg := topFn(roots[0]).Pkg
+			region := r.P.CG.Reachable(roots, func(e *Edge) bool { return e.Kind != "static" || topFn(e.Callee).Pkg != pkg })
+			var fns []*ssa.Function
+			for f := range region {
+				fns = append(fns, f)
+			}
+			sort.Slice(fns, func(i, j int) bool { return fnName(fns[i]) < fnName(fns[j]) })
+			reportedRecv := map[ssa.CallInstruction]bool{}
+			var settle func(fn *ssa.Function, v ssa.Value, origin *ssa.Call, depth int) int
+			settle = func(fn *ssa.Function, v ssa.Value, origin *ssa.Call, depth int) int {
+				name := fnName(fn)
+				var badRecv []ssa.CallInstruction
+				escapes := r.dataEscapes(fn, v, 0, &badRecv)
+				for _, ci := range badRecv {
+					if !reportedRecv[ci] {
+						reportedRecv[ci] = true
+						r.Bad(rule, fnName(ci.Parent()), "scrub set used by Clean", r.P.pos(ci.Pos()), "Clean is called on a ScrubFields that is not the one of the plan the planner made for this operation (a plan assembled on the spot without it, or a value the rule cannot trace to Planner.Plan): the helper fields the planner added are not in it, so nothing is removed and they reach the client")
 					}
 				}
-				if data == nil {
-					r.Bad(rule, name, "Execute result", r.P.pos(call.Pos()), "the data returned by Executor.Execute is not used")
-					continue
-				}
-				var cleans []ssa.CallInstruction
-				for _, ref := range *data.Referrers() {
-					if ci, ok := isCleanCall(ref); ok {
-						cleans = append(cleans, ci)
+				cnt := 0
+				for _, e := range escapes {
+					site := r.P.pos(e.ins.Pos())
+					if site == "-" {
+						site = r.P.pos(origin.Pos())
 					}
-				}
-				// escapes: stores into Data fields, returns, phis flowing to those
-				var escapes []ssa.Instruction
-				seen := map[ssa.Value]bool{}
-				var follow func(v ssa.Value)
-				follow = func(v ssa.Value) {
-					if seen[v] {
-						return
-					}
-					seen[v] = true
-					for _, ref := range *v.Referrers() {
-						switch x := ref.(type) {
-						case *ssa.Store:
-							if x.Val == v {
-								escapes = append(escapes, x)
-								// value spilled to a result local: follow loads of that cell to the return
-								if al, ok := x.Addr.(*ssa.Alloc); ok {
-									for _, i2 := range allInstrs(fn) {
-										if ld, ok := i2.(*ssa.UnOp); ok && ld.Op == token.MUL && ld.X == ssa.Value(al) {
-											follow(ld)
-										}
+					if ret, isRet := e.ins.(*ssa.Return); isRet && !isRoot[fn] && !e.cleaned && depth < 3 {
+						// handed back to the callers of this helper unscrubbed: their turn
+						up := 0
+						for _, in := range r.P.CG.In[fn] {
+							if in.Kind != "static" || !region[in.Caller] {
+								continue
+							}
+							call, ok := in.Site.(*ssa.Call)
+							if !ok {
+								continue
+							}
+							var rv ssa.Value = call
+							if len(ret.Results) > 1 {
+								rv = nil
+								for _, ref := range *call.Referrers() {
+									if ex, ok := ref.(*ssa.Extract); ok && ex.Index == e.result {
+										rv = ex
 									}
 								}
 							}
-						case *ssa.Return:
-							escapes = append(escapes, x)
-						case *ssa.Phi:
-							follow(x)
-						case *ssa.MakeInterface:
-							follow(x)
-						case *ssa.ChangeType:
-							follow(x)
+							if rv == nil {
+								continue
+							}
+							up += settle(in.Caller, rv, origin, depth+1)
+						}
+						if up > 0 {
+							cnt += up
+							continue
 						}
 					}
-				}
-				follow(data)
-				if len(escapes) == 0 {
-					r.Bad(rule, name, "Execute result", r.P.pos(call.Pos()), "could not find where the executed data leaves the function")
-					continue
-				}
-				for _, e := range escapes {
-					n++
-					dom := false
-					for _, c := range cleans {
-						if instrDominates(c, e) {
-							dom = true
-						}
-					}
-					site := r.P.pos(e.Pos())
-					if site == "-" {
-						site = r.P.pos(call.Pos())
-					}
-					if dom {
+					cnt++
+					if e.cleaned {
 						r.OK(rule, name, "executed data leaves function", site, "ScrubFields.Clean was applied to this very value on every path to this point")
 					} else {
 						r.Bad(rule, name, "executed data leaves function", site, "data produced by Executor.Execute reaches the response without passing ScrubFields.Clean: helper id/__typename fields fetched for stitching would leak to the client")
 					}
+				}
+				return cnt
+			}
+			for _, fn := range fns {
+				name := fnName(fn)
+				for _, ins := range allInstrs(fn) {
+					call, ok := ins.(*ssa.Call)
+					if !ok || !call.Call.IsInvoke() || call.Call.Method.Name() != "Execute" || namedOf(call.Call.Value.Type()) != modPath+"/executor.Executor" {
+						continue
+					}
+					var data ssa.Value
+					for _, ref := range *call.Referrers() {
+						if ex, ok := ref.(*ssa.Extract); ok && ex.Index == 0 {
+							data = ex
+						}
+					}
+					if data == nil {
+						r.Bad(rule, name, "Execute result", r.P.pos(call.Pos()), "the data returned by Executor.Execute is not used")
+						continue
+					}
+					got := settle(fn, data, call, 0)
+					if got == 0 {
+						r.Bad(rule, name, "Execute result", r.P.pos(call.Pos()), "could not find where the executed data leaves the function")
+					}
+					n += got
 				}
 			}
 		}
@@ -127,8 +278,224 @@ func ruleExecuteThenClean(fnNames ...string) ruleFn {
 	}
 }
 
-// rulePrepareResponse: subscription events — the upstream response is scrubbed before it is
-// forwarded, and events that need stitching go through executorFn.
+// cellRoot resolves a captured variable seen from a literal to the Alloc of the function that
+// declares it.
+func cellRoot(cell ssa.Value) *ssa.Alloc {
+	for depth := 0; depth < 6; depth++ {
+		switch x := cell.(type) {
+		case *ssa.Alloc:
+			return x
+		case *ssa.FreeVar:
+			lit := x.Parent()
+			k := -1
+			for i, fv := range lit.FreeVars {
+				if fv == x {
+					k = i
+				}
+			}
+			if k < 0 || lit.Parent() == nil {
+				return nil
+			}
+			var next ssa.Value
+			for _, ins := range allInstrs(lit.Parent()) {
+				if mc, ok := ins.(*ssa.MakeClosure); ok && mc.Fn == ssa.Value(lit) && k < len(mc.Bindings) {
+					next = mc.Bindings[k]
+				}
+			}
+			if next == nil {
+				return nil
+			}
+			cell = next
+		default:
+			return nil
+		}
+	}
+	return nil
+}
+
+// plannerPlan: v is a *planner.QueryPlan that came out of Planner.Plan — directly, through a
+// local or captured variable, a struct field every store to which is such a plan, a parameter
+// every caller fills with one — or a QueryPlan built on the spot whose ScrubFields field is
+// filled from such a plan. The scrub set of any other plan says nothing about the helper
+// fields the planner added to the operation that was executed.
+func (r *Run) plannerPlan(v ssa.Value, depth int) bool {
+	if depth > 6 {
+		return false
+	}
+	v = unwrap(v)
+	all := func(vals []ssa.Value, f func(ssa.Value) bool) bool {
+		if len(vals) == 0 {
+			return false
+		}
+		for _, x := range vals {
+			if !f(x) {
+				return false
+			}
+		}
+		return true
+	}
+	next := func(x ssa.Value) bool { return r.plannerPlan(x, depth+1) }
+	switch x := v.(type) {
+	case *ssa.Extract:
+		c, ok := x.Tuple.(*ssa.Call)
+		if !ok || x.Index != 0 {
+			return false
+		}
+		if c.Call.IsInvoke() {
+			return c.Call.Method.Name() == "Plan" && namedOf(c.Call.Value.Type()) == plannerPkg+".Planner"
+		}
+		return r.plannerPlanCall(c, 0, depth)
+	case *ssa.Call:
+		return r.plannerPlanCall(x, 0, depth)
+	case *ssa.Phi:
+		return all(x.Edges, next)
+	case *ssa.Parameter:
+		var args []ssa.Value
+		fn := x.Parent()
+		k := -1
+		for i, p := range fn.Params {
+			if p == x {
+				k = i
+			}
+		}
+		for _, e := range r.P.CG.In[fn] {
+			if e.Kind == "param" {
+				continue
+			}
+			if e.Kind != "static" || k < 0 || k >= len(e.Site.Common().Args) {
+				return false
+			}
+			args = append(args, e.Site.Common().Args[k])
+		}
+		return all(args, next)
+	case *ssa.Alloc:
+		// &planner.QueryPlan{…, ScrubFields: <a planner plan's set>}
+		if namedOf(x.Type()) != plannerPkg+".QueryPlan" {
+			return false
+		}
+		var vals []ssa.Value
+		for _, ins := range allInstrs(x.Parent()) {
+			if st, ok := ins.(*ssa.Store); ok {
+				if fa, ok := st.Addr.(*ssa.FieldAddr); ok && fa.X == ssa.Value(x) && fieldOf(fa) != nil && fieldOf(fa).Name() == "ScrubFields" {
+					vals = append(vals, st.Val)
+				}
+			}
+		}
+		return all(vals, func(y ssa.Value) bool { return r.plannerScrubSet(y, depth+1) })
+	case *ssa.UnOp:
+		if x.Op != token.MUL {
+			return false
+		}
+		switch a := x.X.(type) {
+		case *ssa.Alloc, *ssa.FreeVar:
+			root := cellRoot(a)
+			if root == nil {
+				return false
+			}
+			var vals []ssa.Value
+			for _, st := range storesTo(root) {
+				vals = append(vals, st.Val)
+			}
+			return all(vals, next)
+		case *ssa.FieldAddr:
+			f := fieldOf(a)
+			if f == nil {
+				return false
+			}
+			var vals []ssa.Value
+			for _, fn := range r.P.Funcs {
+				for _, ins := range allInstrs(fn) {
+					if st, ok := ins.(*ssa.Store); ok {
+						if fb, ok := st.Addr.(*ssa.FieldAddr); ok && fieldOf(fb) == f {
+							vals = append(vals, st.Val)
+						}
+					}
+				}
+			}
+			return all(vals, next)
+		}
+	}
+	return false
+}
+
+func (r *Run) plannerPlanCall(c *ssa.Call, idx, depth int) bool {
+	sc := c.Call.StaticCallee()
+	if sc == nil {
+		return false
+	}
+	f := r.P.declared(sc)
+	if !inModule(f) || f.Blocks == nil {
+		return false
+	}
+	rets := returnsOf(f)
+	if len(rets) == 0 {
+		return false
+	}
+	for _, ret := range rets {
+		vals := retVals(ret)
+		if idx >= len(vals) {
+			return false
+		}
+		if isNilConst(unwrap(vals[idx])) {
+			continue
+		}
+		if !r.plannerPlan(vals[idx], depth+1) {
+			return false
+		}
+	}
+	return true
+}
+
+// plannerScrubSet: v is the ScrubFields of a plan that came out of the planner.
+func (r *Run) plannerScrubSet(v ssa.Value, depth int) bool {
+	if depth > 6 {
+		return false
+	}
+	v = unwrap(v)
+	switch x := v.(type) {
+	case *ssa.Phi:
+		for _, e := range x.Edges {
+			if !r.plannerScrubSet(e, depth+1) {
+				return false
+			}
+		}
+		return len(x.Edges) > 0
+	case *ssa.UnOp:
+		if x.Op != token.MUL {
+			return false
+		}
+		switch a := x.X.(type) {
+		case *ssa.FieldAddr:
+			if f := fieldOf(a); f != nil && f.Name() == "ScrubFields" && namedOf(a.X.Type()) == plannerPkg+".QueryPlan" {
+				return r.plannerPlan(a.X, depth+1)
+			}
+		case *ssa.Alloc, *ssa.FreeVar:
+			root := cellRoot(a)
+			if root == nil {
+				return false
+			}
+			sts := storesTo(root)
+			for _, st := range sts {
+				if !r.plannerScrubSet(st.Val, depth+1) {
+					return false
+				}
+			}
+			return len(sts) > 0
+		}
+	}
+	return false
+}
+
+// cleanReceiverOK: the ScrubFields a Clean call is made on belongs to a plan of the planner.
+func (r *Run) cleanReceiverOK(ci ssa.CallInstruction) bool {
+	args := ci.Common().Args
+	return len(args) >= 1 && r.plannerScrubSet(args[0], 0)
+}
+
+// rulePrepareResponse: subscription events — whatever prepareResponse returns carries scrubbed
+// data: the upstream response itself after Clean(resp.Data), or a new Response whose Data is
+// the result of the per-event executor (scrubbed there, R5.clean on executorFn), the upstream
+// data after Clean(resp.Data), or nothing.
 func rulePrepareResponse(r *Run) {
 	const rule = "R5.clean"
 	name := "pebbles.(*subscriptionEntry).prepareResponse"
@@ -137,35 +504,145 @@ func rulePrepareResponse(r *Run) {
 		return
 	}
 	resp := fn.Params[1]
-	n := 0
-	for _, ret := range returnsOf(fn) {
-		v := unwrap(retVals(ret)[0])
-		if v != ssa.Value(resp) {
-			continue
+	isRespData := func(v ssa.Value) bool {
+		ld, ok := unwrap(v).(*ssa.UnOp)
+		if !ok || ld.Op != token.MUL {
+			return false
 		}
-		n++
-		dom := false
+		fa, ok := ld.X.(*ssa.FieldAddr)
+		return ok && fa.X == ssa.Value(resp) && fieldOf(fa) != nil && fieldOf(fa).Name() == "Data"
+	}
+	// Clean(resp.Data) dominating at: the map is scrubbed in place, so every later read of
+	// resp.Data sees the scrubbed map
+	cleanedBefore := func(at ssa.Instruction) bool {
 		for _, ins := range allInstrs(fn) {
 			ci, ok := isCleanCall(ins)
 			if !ok || len(ci.Common().Args) < 2 {
 				continue
 			}
-			if ld, ok := unwrap(ci.Common().Args[1]).(*ssa.UnOp); ok && ld.Op == token.MUL {
-				if fa, ok := ld.X.(*ssa.FieldAddr); ok && fa.X == ssa.Value(resp) && fieldOf(fa) != nil && fieldOf(fa).Name() == "Data" && instrDominates(ci, ret) {
-					dom = true
-				}
+			if isRespData(ci.Common().Args[1]) && instrDominates(ci, at) && r.cleanReceiverOK(ci) {
+				return true
 			}
 		}
-		if dom {
-			r.OK(rule, name, "upstream response forwarded", r.P.pos(retPos(ret)), "Clean(resp.Data) dominates the return of the upstream response")
+		return false
+	}
+	execFns := map[*ssa.Function]bool{}
+	for _, f := range r.RoleFuncs("executorFn") {
+		execFns[f] = true
+	}
+	// fromExecutor: v is the data result of a call that can only run a per-event executor
+	fromExecutor := func(v ssa.Value) bool {
+		ex, ok := unwrap(v).(*ssa.Extract)
+		if !ok || ex.Index != 0 {
+			return false
+		}
+		call, ok := ex.Tuple.(*ssa.Call)
+		if !ok {
+			return false
+		}
+		n := 0
+		for _, e := range r.P.CG.Out[fn] {
+			if e.Site == ssa.CallInstruction(call) {
+				if !execFns[e.Callee] {
+					return false
+				}
+				n++
+			}
+		}
+		if _, unresolved := r.P.CG.Unresolved[call]; unresolved {
+			return false
+		}
+		return n > 0
+	}
+	var dataOK func(v ssa.Value, at ssa.Instruction, depth int) (bool, string)
+	dataOK = func(v ssa.Value, at ssa.Instruction, depth int) (bool, string) {
+		v = unwrap(v)
+		switch {
+		case isNilConst(v):
+			return true, "no data"
+		case fromExecutor(v):
+			return true, "data produced by the per-event executor, which scrubs what it returns"
+		case isRespData(v):
+			if cleanedBefore(at) {
+				return true, "Clean(resp.Data) dominates this return"
+			}
+			return false, ""
+		}
+		if p, ok := v.(*ssa.Phi); ok && depth < 4 {
+			for _, e := range p.Edges {
+				if ok, _ := dataOK(e, at, depth+1); !ok {
+					return false, ""
+				}
+			}
+			return true, "every alternative is scrubbed data"
+		}
+		return false, ""
+	}
+	n := 0
+	for _, ret := range returnsOf(fn) {
+		var cands []ssa.Value
+		if p, ok := retVals(ret)[0].(*ssa.Phi); ok {
+			cands = append(cands, p.Edges...)
 		} else {
-			r.Bad(rule, name, "upstream response forwarded", r.P.pos(retPos(ret)), "an upstream event is forwarded to the client without ScrubFields.Clean on its data")
+			cands = []ssa.Value{retVals(ret)[0]}
+		}
+		for _, v := range cands {
+			v = unwrap(v)
+			site := r.P.pos(retPos(ret))
+			switch x := v.(type) {
+			case *ssa.Parameter:
+				if x != resp {
+					r.Bad(rule, name, "response returned", site, "prepareResponse returns something the rule cannot trace to scrubbed data")
+					continue
+				}
+				n++
+				r.Check(cleanedBefore(ret), rule, name, "upstream response forwarded", site,
+					"Clean(resp.Data) dominates the return of the upstream response",
+					"an upstream event is forwarded to the client without ScrubFields.Clean on its data")
+			case *ssa.Alloc:
+				// a Response built here: what is stored into its Data field
+				n++
+				ok, why := true, "the new Response carries no data"
+				for _, ins := range allInstrs(fn) {
+					st, isSt := ins.(*ssa.Store)
+					if !isSt {
+						continue
+					}
+					fa, isFa := st.Addr.(*ssa.FieldAddr)
+					if !isFa || fa.X != ssa.Value(x) {
+						if isSt && st.Addr == ssa.Value(x) {
+							// `*new = *resp`: a whole-struct copy
+							ok, why = cleanedBefore(ret), "copy of the upstream response after Clean(resp.Data)"
+						}
+						continue
+					}
+					if fieldOf(fa) == nil || fieldOf(fa).Name() != "Data" {
+						continue
+					}
+					if o, w := dataOK(st.Val, ret, 0); o {
+						why = w
+					} else {
+						ok = false
+					}
+				}
+				r.Check(ok, rule, name, "new response returned", site,
+					"the Data of the Response built here is scrubbed: "+why,
+					"prepareResponse returns a new Response whose Data is the upstream event's data (or something else the rule cannot trace to the per-event executor) without ScrubFields.Clean on every path: helper id/__typename fields fetched for stitching reach the subscriber")
+			default:
+				if isNilConst(v) {
+					continue
+				}
+				r.Bad(rule, name, "response returned", site, "prepareResponse returns something the rule cannot trace to scrubbed data ("+v.String()+")")
+			}
 		}
 	}
-	r.AtLeast(rule, "returns of the upstream response in prepareResponse", n, 1)
+	r.AtLeast(rule, "returns of prepareResponse", n, 1)
 }
 
-// ruleRespondOnce: every path through queryHandler writes the response exactly once.
+// ruleRespondOnce: every path through queryHandler writes the response exactly once. A call of
+// a helper that itself writes exactly once on each of its paths counts as one write
+// (`rejectRequest(w, err)` for `emitError(w, 422, err)`); a callee from which a response write
+// can be reached but whose number of writes the rule cannot pin down is a violation.
 func ruleRespondOnce(r *Run) {
 	const rule = "R5.once"
 	name := "pebbles.(*Gateway).queryHandler"
@@ -173,31 +650,136 @@ func ruleRespondOnce(r *Run) {
 	if fn == nil {
 		return
 	}
-	isWrite := func(i ssa.Instruction) int {
-		ci, ok := i.(ssa.CallInstruction)
-		if !ok {
-			return 0
-		}
-		switch calleeName(ci.Common()) {
+	isPrimitive := func(c *ssa.CallCommon) bool {
+		switch calleeName(c) {
 		case modPath + ".emitError", "(" + modPath + ".Results).Emit":
-			return 1
+			return true
 		}
-		return 0
+		return false
 	}
-	mn, mx, cyc, ends := pathCount(fn.Blocks[0], 0, nil, isWrite)
-	if cyc || mn != 1 || mx != 1 {
+	// functions from which a primitive response write is reachable
+	reaches := map[*ssa.Function]bool{}
+	reachesWrite := func(f *ssa.Function) bool {
+		if v, ok := reaches[f]; ok {
+			return v
+		}
+		res := false
+		for g := range r.P.CG.Reachable([]*ssa.Function{f}, nil) {
+			for _, ins := range allInstrs(g) {
+				if ci, ok := ins.(ssa.CallInstruction); ok && isPrimitive(ci.Common()) {
+					res = true
+				}
+			}
+		}
+		reaches[f] = res
+		return res
+	}
+	var unclear []string
+	var weightIn func(caller *ssa.Function, depth int) func(ssa.Instruction) int
+	// exact number of writes of a helper, or -1
+	var exact func(f *ssa.Function, depth int) int
+	exact = func(f *ssa.Function, depth int) int {
+		if depth > 4 || f.Blocks == nil {
+			return -1
+		}
+		mn, mx, cyc, _ := pathCount(f.Blocks[0], 0, nil, weightIn(f, depth+1))
+		if cyc || mn != mx {
+			return -1
+		}
+		return mn
+	}
+	weightIn = func(caller *ssa.Function, depth int) func(ssa.Instruction) int {
+		return func(i ssa.Instruction) int {
+			ci, ok := i.(ssa.CallInstruction)
+			if !ok {
+				return 0
+			}
+			if isPrimitive(ci.Common()) {
+				if _, isCall := i.(*ssa.Call); !isCall && depth > 0 {
+					unclear = append(unclear, "deferred/spawned write in "+fnName(caller))
+				}
+				return 1
+			}
+			total := 0
+			for _, e := range r.P.CG.Out[caller] {
+				if e.Site != ci || e.Kind == "param" || !reachesWrite(e.Callee) {
+					continue
+				}
+				n := -1
+				if _, isCall := i.(*ssa.Call); isCall && e.Kind == "static" {
+					n = exact(e.Callee, depth)
+				}
+				if n < 0 {
+					unclear = append(unclear, fnName(e.Callee)+" (called at "+r.P.pos(i.Pos())+")")
+					n = 1
+				}
+				total += n
+			}
+			return total
+		}
+	}
+	mn, mx, cyc, ends := pathCount(fn.Blocks[0], 0, nil, weightIn(fn, 0))
+	if len(unclear) > 0 {
+		sort.Strings(unclear)
+		r.Bad(rule, name, "responses per request", r.P.pos(fn.Pos()), "a response write is reachable through "+unclear[0]+", and the rule cannot tell how many times it writes (not a plain helper that writes exactly once on each of its paths): exactly one of emitError/Emit is required on every path of the handler")
+	} else if cyc || mn != 1 || mx != 1 {
 		r.Bad(rule, name, "responses per request", r.P.pos(fn.Pos()), fmt.Sprintf("a path through the handler writes the response %d..%d times (cyclic=%v); exactly one of emitError/Emit is required on every path", mn, mx, cyc))
 	} else {
-		r.OK(rule, name, "responses per request", r.P.pos(fn.Pos()), fmt.Sprintf("each of the %d exit paths calls exactly one of emitError / Results.Emit", ends))
+		r.OK(rule, name, "responses per request", r.P.pos(fn.Pos()), fmt.Sprintf("each of the %d exit paths calls exactly one of emitError / Results.Emit (directly or through a helper that writes exactly once)", ends))
 	}
-	// status codes: 422 only from the Parse-failure branch, via emitError
-	for _, ins := range allInstrs(fn) {
-		ci, ok := ins.(ssa.CallInstruction)
-		if !ok || calleeName(ci.Common()) != modPath+".emitError" {
-			continue
+	// status codes: 422 only from the Parse-failure branch, via emitError. The emitError calls
+	// are looked for in the handler and in the helpers it calls directly (status handed on as a
+	// constant or as the helper's parameter); where such a call sits is judged at the call site
+	// inside the handler.
+	type emitSite struct {
+		at   ssa.Instruction // the call inside queryHandler
+		call ssa.CallInstruction
+		code ssa.Value
+	}
+	var emits []emitSite
+	var collect func(f *ssa.Function, at ssa.Instruction, bind map[*ssa.Parameter]ssa.Value, depth int)
+	collect = func(f *ssa.Function, at ssa.Instruction, bind map[*ssa.Parameter]ssa.Value, depth int) {
+		for _, ins := range allInstrs(f) {
+			ci, ok := ins.(ssa.CallInstruction)
+			if !ok {
+				continue
+			}
+			here := at
+			if f == fn {
+				here = ins
+			}
+			if calleeName(ci.Common()) == modPath+".emitError" && len(ci.Common().Args) >= 2 {
+				code := ci.Common().Args[1]
+				if p, isP := code.(*ssa.Parameter); isP && bind[p] != nil {
+					code = bind[p]
+				}
+				emits = append(emits, emitSite{here, ci, code})
+				continue
+			}
+			if depth >= 3 {
+				continue
+			}
+			for _, e := range r.P.CG.Out[f] {
+				if e.Site != ci || e.Kind != "static" || e.Callee == f || !reachesWrite(e.Callee) || isPrimitive(ci.Common()) {
+					continue
+				}
+				b2 := map[*ssa.Parameter]ssa.Value{}
+				for k, a := range ci.Common().Args {
+					if k < len(e.Callee.Params) {
+						if p, isP := a.(*ssa.Parameter); isP && bind[p] != nil {
+							a = bind[p]
+						}
+						b2[e.Callee.Params[k]] = a
+					}
+				}
+				collect(e.Callee, here, b2, depth+1)
+			}
 		}
-		args := ci.Common().Args
-		code, isC := args[1].(*ssa.Const)
+	}
+	collect(fn, nil, nil, 0)
+	for _, es := range emits {
+		ins := es.at
+		code, isC := es.code.(*ssa.Const)
 		good := isC && code.Value != nil && code.Value.ExactString() == "422"
 		// must be on the failure side of requests.Parse
 		onFail := false
@@ -217,9 +799,9 @@ func ruleRespondOnce(r *Run) {
 			}
 		}
 		if good && onFail {
-			r.OK(rule, name, "emitError(422)", r.P.pos(ins.Pos()), "status 422 is produced only on the failure side of requests.Parse")
+			r.OK(rule, name, "emitError(422)", r.P.pos(es.call.Pos()), "status 422 is produced only on the failure side of requests.Parse")
 		} else {
-			r.Bad(rule, name, "emitError(422)", r.P.pos(ins.Pos()), "emitError is not (only) the 422 answer to an undecodable request")
+			r.Bad(rule, name, "emitError(422)", r.P.pos(es.call.Pos()), "emitError is not (only) the 422 answer to an undecodable request")
 		}
 	}
 }
@@ -282,9 +864,9 @@ func ruleResultIndex(r *Run) {
 		"payload is lo.Range(len(rs.Requests)) and the accumulator is made with the same length: one slot per operation",
 		"the batch fan-out is no longer `lo.Range(len(rs.Requests))` over an accumulator of the same length: the number/positions of results can differ from the number of operations")
 
-	indexField := func(v ssa.Value) *ssa.Store {
-		// a store `v.index = idxParam`
-		for _, ins := range allInstrs(mapF) {
+	indexField := func(f *ssa.Function, v ssa.Value, idx ssa.Value) *ssa.Store {
+		// a store `v.index = idx`
+		for _, ins := range allInstrs(f) {
 			st, ok := ins.(*ssa.Store)
 			if !ok {
 				continue
@@ -293,14 +875,14 @@ func ruleResultIndex(r *Run) {
 			if !ok || fa.X != v {
 				continue
 			}
-			if f := fieldOf(fa); f != nil && f.Name() == "index" && unwrap(st.Val) == ssa.Value(idxParam) {
+			if fld := fieldOf(fa); fld != nil && fld.Name() == "index" && unwrap(st.Val) == idx {
 				return st
 			}
 		}
 		return nil
 	}
-	fieldStore := func(v ssa.Value, field string) *ssa.Store {
-		for _, ins := range allInstrs(mapF) {
+	fieldStore := func(f *ssa.Function, v ssa.Value, field string) *ssa.Store {
+		for _, ins := range allInstrs(f) {
 			st, ok := ins.(*ssa.Store)
 			if !ok {
 				continue
@@ -315,47 +897,107 @@ func ruleResultIndex(r *Run) {
 	g := &gateInfo{r: r}
 	g.compute(r.P.CG.Reachable([]*ssa.Function{qh}, nil))
 	n := 0
-	for _, ret := range returnsOf(mapF) {
-		vals := retVals(ret)
-		if len(vals) != 2 {
-			continue
-		}
-		n++
-		site := r.P.pos(retPos(ret))
-		if !isNilConst(unwrap(vals[1])) {
-			r.Bad(rule, name, "returned error", site, "the per-operation closure returns an error: AsyncMapReduce then records no result for this slot and the response array has a null hole; failures must be returned as a Result with Errors")
-		}
-		var cands []ssa.Value
-		if p, ok := vals[0].(*ssa.Phi); ok {
-			cands = append(cands, p.Edges...)
-		} else {
-			cands = []ssa.Value{vals[0]}
-		}
-		for _, v := range cands {
-			v = unwrap(v)
-			if helperSetsIndex(r, v, idxParam) {
-				r.OK(rule, name, "Result.index", site, "the Result is built by a helper that stores the operation index it is given into index on every return")
+	// checkReturns looks at every return of f — the per-operation closure, or a function of the
+	// module the closure (transitively) returns the result of, handing it the operation index as
+	// parameter idx: `return g.executeOperation(index, rs.Requests[index]), nil`. resAt/errAt are
+	// the positions of the Result and of the error among f's results (errAt < 0: none).
+	var checkReturns func(f *ssa.Function, idx ssa.Value, resAt, errAt int, gated bool, depth int)
+	checkReturns = func(f *ssa.Function, idx ssa.Value, resAt, errAt int, gated bool, depth int) {
+		fname := fnName(f)
+		for _, ret := range returnsOf(f) {
+			vals := retVals(ret)
+			if resAt >= len(vals) || errAt >= len(vals) {
 				continue
 			}
-			st := indexField(v)
-			if st == nil || !instrDominates(st, ret) {
-				r.Bad(rule, name, "Result.index", site, "a Result is returned whose index field is not set from the closure's operation index on this path: the reducer would place it in slot 0 (overwriting another operation's result) and leave its own slot null")
-				continue
+			site := r.P.pos(retPos(ret))
+			errFromCallee := map[*ssa.Call]bool{}
+			if errAt >= 0 && !isNilConst(unwrap(vals[errAt])) {
+				// the error of the very helper whose Result is returned is judged inside that helper
+				if ex, ok := unwrap(vals[errAt]).(*ssa.Extract); ok {
+					if c, ok := ex.Tuple.(*ssa.Call); ok {
+						if rx, ok := unwrap(vals[resAt]).(*ssa.Extract); ok && rx.Tuple == ssa.Value(c) {
+							errFromCallee[c] = true
+						}
+					}
+				}
+				if len(errFromCallee) == 0 {
+					n++
+					r.Bad(rule, fname, "returned error", site, "the per-operation closure returns an error: AsyncMapReduce then records no result for this slot and the response array has a null hole; failures must be returned as a Result with Errors")
+				}
 			}
-			r.OK(rule, name, "Result.index", site, "index is stored from the closure parameter before the return")
-			// failure results: returned before the gate ⇒ Data nil, Errors set
-			if !g.validated[mapF][ret.Block()] {
-				d := fieldStore(v, "Data")
-				e := fieldStore(v, "Errors")
-				okData := d == nil || isNilConst(unwrap(d.Val))
-				okErr := e != nil && !isNilConst(unwrap(e.Val))
-				if _, isAlloc := v.(*ssa.Alloc); isAlloc {
-					r.Check(okData && okErr, rule, name, "validation-failure Result", site,
-						"Data is nil and Errors is set on a result returned before validation succeeded",
-						"a result returned on a validation-failure path carries data or no errors (C07: invalid ⇒ data null + errors)")
+			var cands []ssa.Value
+			if p, ok := vals[resAt].(*ssa.Phi); ok {
+				cands = append(cands, p.Edges...)
+			} else {
+				cands = []ssa.Value{vals[resAt]}
+			}
+			for _, v := range cands {
+				v = unwrap(v)
+				if helperSetsIndex(r, v, idx) {
+					n++
+					r.OK(rule, fname, "Result.index", site, "the Result is built by a helper that stores the operation index it is given into index on every return")
+					continue
+				}
+				// the result of a module function that is handed the index: its returns
+				var hc *ssa.Call
+				hres, herr := 0, -1
+				switch x := v.(type) {
+				case *ssa.Call:
+					hc = x
+				case *ssa.Extract:
+					if c, ok := x.Tuple.(*ssa.Call); ok {
+						hc, hres = c, x.Index
+					}
+				}
+				if hc != nil && depth < 3 {
+					if sc := hc.Call.StaticCallee(); sc != nil {
+						if d := r.P.declared(sc); inModule(d) && d.Blocks != nil && indexField(f, v, idx) == nil {
+							pi := -1
+							for i, a := range hc.Call.Args {
+								if unwrap(a) == idx {
+									pi = i
+								}
+							}
+							res := d.Signature.Results()
+							for i := 0; i < res.Len(); i++ {
+								if isErrorish(res.At(i).Type()) && i != hres {
+									herr = i
+								}
+							}
+							if pi >= 0 && pi < len(d.Params) && (herr < 0 || errFromCallee[hc]) {
+								if !errFromCallee[hc] {
+									herr = -1
+								}
+								checkReturns(d, d.Params[pi], hres, herr, gated || g.validated[f][hc.Block()], depth+1)
+								continue
+							}
+						}
+					}
+				}
+				n++
+				st := indexField(f, v, idx)
+				if st == nil || !instrDominates(st, ret) {
+					r.Bad(rule, fname, "Result.index", site, "a Result is returned whose index field is not set from the closure's operation index on this path: the reducer would place it in slot 0 (overwriting another operation's result) and leave its own slot null")
+					continue
+				}
+				r.OK(rule, fname, "Result.index", site, "index is stored from the operation index before the return")
+				// failure results: returned before the gate ⇒ Data nil, Errors set
+				if !gated && !g.validated[f][ret.Block()] {
+					d := fieldStore(f, v, "Data")
+					e := fieldStore(f, v, "Errors")
+					okData := d == nil || isNilConst(unwrap(d.Val))
+					okErr := e != nil && !isNilConst(unwrap(e.Val))
+					if _, isAlloc := v.(*ssa.Alloc); isAlloc {
+						r.Check(okData && okErr, rule, fname, "validation-failure Result", site,
+							"Data is nil and Errors is set on a result returned before validation succeeded",
+							"a result returned on a validation-failure path carries data or no errors (C07: invalid ⇒ data null + errors)")
+					}
 				}
 			}
 		}
+	}
+	if mapF.Signature.Results().Len() == 2 {
+		checkReturns(mapF, idxParam, 0, 1, false, 0)
 	}
 	r.AtLeast(rule, "returns of the per-operation closure", n, 4)
 
@@ -401,7 +1043,9 @@ func ruleResultIndex(r *Run) {
 }
 
 // ruleClosureIsolation (R3c): the per-operation closure of queryHandler writes only memory it
-// allocated itself.
+// allocated itself. The closure's code is the closure plus the functions of its package it
+// calls (its body may live in a method): there a write through a parameter is judged by what
+// the callers inside that code pass in.
 func ruleClosureIsolation(r *Run) {
 	const rule = "R3c"
 	qh := r.Anchor(rule, "pebbles.(*Gateway).queryHandler")
@@ -412,8 +1056,14 @@ func ruleClosureIsolation(r *Run) {
 	if mapF == nil {
 		return
 	}
-	name := fnName(mapF)
 	n := 0
+	pkg := topFn(mapF).Pkg
+	region := r.P.CG.Reachable([]*ssa.Function{mapF}, func(e *Edge) bool { return e.Kind != "static" || topFn(e.Callee).Pkg != pkg })
+	var fns []*ssa.Function
+	for f := range region {
+		fns = append(fns, f)
+	}
+	sort.Slice(fns, func(i, j int) bool { return fnName(fns[i]) < fnName(fns[j]) })
 	rootOf := func(addr ssa.Value) ssa.Value {
 		for {
 			switch x := addr.(type) {
@@ -426,32 +1076,80 @@ func ruleClosureIsolation(r *Run) {
 			}
 		}
 	}
-	for _, ins := range allInstrs(mapF) {
-		var addr ssa.Value
-		switch x := ins.(type) {
-		case *ssa.Store:
-			addr = x.Addr
-		case *ssa.MapUpdate:
-			addr = x.Map
-		default:
-			continue
-		}
-		n++
-		root := rootOf(addr)
-		site := r.P.pos(ins.Pos())
+	// own: the object root was made by this invocation of the closure's code
+	var own func(root ssa.Value, depth int) (bool, string)
+	own = func(root ssa.Value, depth int) (bool, string) {
 		switch rt := root.(type) {
-		case *ssa.Alloc:
-			r.OK(rule, name, "write to own allocation", site, "the written object was allocated by this invocation of the closure")
-		case *ssa.MakeMap, *ssa.MakeSlice:
-			r.OK(rule, name, "write to own allocation", site, "the written object was allocated by this invocation of the closure")
+		case *ssa.Alloc, *ssa.MakeMap, *ssa.MakeSlice:
+			return true, "the written object was allocated by this invocation of the closure"
 		case *ssa.Call:
 			// a value returned by a call (e.g. the introspection Result): fresh per invocation
 			if _, isPtr := rt.Type().Underlying().(*types.Pointer); isPtr {
-				r.OK(rule, name, "write to call result", site, "writes a field of an object returned to this invocation by "+calleeDesc(&rt.Call))
-			} else {
-				r.Bad(rule, name, "write", site, "the per-operation closure writes shared state")
+				return true, "writes a field of an object returned to this invocation by " + calleeDesc(&rt.Call)
 			}
-		default:
+			return false, ""
+		case *ssa.Parameter:
+			f := rt.Parent()
+			if f == mapF || depth > 3 {
+				return false, ""
+			}
+			k := -1
+			for i, p := range f.Params {
+				if p == rt {
+					k = i
+				}
+			}
+			sites := 0
+			for _, e := range r.P.CG.In[f] {
+				if e.Kind == "param" || !region[e.Caller] {
+					continue
+				}
+				if e.Kind != "static" || k < 0 || k >= len(e.Site.Common().Args) {
+					return false, ""
+				}
+				sites++
+				a := e.Site.Common().Args[k]
+				if ld, ok := a.(*ssa.UnOp); ok && ld.Op == token.MUL {
+					return false, "" // loaded from memory: whose it is cannot be told here
+				}
+				if ok, _ := own(rootOf(a), depth+1); !ok {
+					return false, ""
+				}
+			}
+			if sites == 0 {
+				return false, ""
+			}
+			return true, "the written object is handed in by the closure's own code, which allocated it"
+		}
+		return false, ""
+	}
+	for _, fn := range fns {
+		name := fnName(fn)
+		for _, ins := range allInstrs(fn) {
+			var addr ssa.Value
+			switch x := ins.(type) {
+			case *ssa.Store:
+				addr = x.Addr
+			case *ssa.MapUpdate:
+				addr = x.Map
+			default:
+				continue
+			}
+			n++
+			root := rootOf(addr)
+			site := r.P.pos(ins.Pos())
+			if ok, why := own(root, 0); ok {
+				what := "write to own allocation"
+				if _, isCall := root.(*ssa.Call); isCall {
+					what = "write to call result"
+				}
+				r.OK(rule, name, what, site, why)
+				continue
+			}
+			if _, isCall := root.(*ssa.Call); isCall {
+				r.Bad(rule, name, "write", site, "the per-operation closure writes shared state")
+				continue
+			}
 			r.Bad(rule, name, "write to captured/shared memory", site, fmt.Sprintf("the per-operation closure writes memory it did not allocate (%s): operations of one batch run concurrently and would interfere", root.String()))
 		}
 	}
@@ -557,6 +1255,58 @@ func ruleCancelOwnership(r *Run) {
 				n++
 				var bad ssa.Instruction
 				var check func(v ssa.Value)
+				var checkCell func(cell ssa.Value, depth int)
+				// a cell (local variable, or the same variable seen from a literal of this
+				// function) that holds the cancel function: loads are again only called or
+				// deferred. A function literal that captures the cell is still this function's
+				// own code when the literal goes nowhere — it is only deferred or called on the
+				// spot (the teardown `defer func() { …; cancel() }()`), never started as a
+				// goroutine, stored or passed on.
+				checkCell = func(cell ssa.Value, depth int) {
+					if depth > 4 {
+						bad = c
+						return
+					}
+					for _, r2 := range *cell.Referrers() {
+						switch y := r2.(type) {
+						case *ssa.UnOp:
+							check(y)
+						case *ssa.Store:
+							if y.Addr != cell {
+								bad = r2 // the cell's address is stored somewhere
+							}
+						case *ssa.DebugRef:
+						case *ssa.MakeClosure:
+							lit, ok := y.Fn.(*ssa.Function)
+							if !ok {
+								bad = r2
+								continue
+							}
+							for _, u := range *y.Referrers() {
+								switch z := u.(type) {
+								case *ssa.Defer:
+									if z.Call.Value != ssa.Value(y) {
+										bad = u
+									}
+								case *ssa.Call:
+									if z.Call.Value != ssa.Value(y) {
+										bad = u
+									}
+								case *ssa.DebugRef:
+								default:
+									bad = u // go statement, store, argument, return
+								}
+							}
+							for k, b := range y.Bindings {
+								if b == cell && k < len(lit.FreeVars) {
+									checkCell(lit.FreeVars[k], depth+1)
+								}
+							}
+						default:
+							bad = r2
+						}
+					}
+				}
 				check = func(v ssa.Value) {
 					for _, u := range *v.Referrers() {
 						switch x := u.(type) {
@@ -574,16 +1324,8 @@ func ruleCancelOwnership(r *Run) {
 								bad = u
 								continue
 							}
-							// local cell: every load must again be only called/deferred here; no capture
-							for _, r2 := range *al.Referrers() {
-								switch y := r2.(type) {
-								case *ssa.UnOp:
-									check(y)
-								case *ssa.Store:
-								default:
-									bad = r2
-								}
-							}
+							// local cell: every load must again be only called/deferred here
+							checkCell(al, 0)
 						case *ssa.DebugRef:
 						default:
 							bad = u
@@ -593,7 +1335,7 @@ func ruleCancelOwnership(r *Run) {
 				check(ex)
 				site := r.P.pos(c.Pos())
 				if bad == nil {
-					r.OK(rule, fnName(fn), "cancel func of "+calleeName(&c.Call), site, "only called/deferred by the function that created the context")
+					r.OK(rule, fnName(fn), "cancel func of "+calleeName(&c.Call), site, "only called/deferred by the function that created the context (or by a literal of it that is itself only deferred/called there)")
 				} else {
 					r.Bad(rule, fnName(fn), "cancel func of "+calleeName(&c.Call), r.P.pos(bad.Pos()), "the cancel function of a context leaves the function that created it (stored, captured or passed on): whoever receives it can cancel every unit of work that shares the context — e.g. one failing operation of a batch aborting the in-flight sub-requests of its siblings")
 				}
@@ -645,7 +1387,7 @@ func ruleWholeBodyDecode(r *Run) {
 // helperSetsIndex: v is the result of a call to a module function that, on every return,
 // yields a freshly built Result whose index field is stored from the parameter that receives
 // the closure's operation index at this call.
-func helperSetsIndex(r *Run, v ssa.Value, idx *ssa.Parameter) bool {
+func helperSetsIndex(r *Run, v ssa.Value, idx ssa.Value) bool {
 	c, ok := v.(*ssa.Call)
 	if !ok {
 		return false
@@ -660,7 +1402,7 @@ func helperSetsIndex(r *Run, v ssa.Value, idx *ssa.Parameter) bool {
 	}
 	pi := -1
 	for i, a := range c.Call.Args {
-		if unwrap(a) == ssa.Value(idx) {
+		if unwrap(a) == idx {
 			pi = i
 		}
 	}
@@ -695,6 +1437,16 @@ func helperSetsIndex(r *Run, v ssa.Value, idx *ssa.Parameter) bool {
 var fanoutOwnerWrites = map[string]tabEntry{
 	"queryer.(*MultiOpQueryer).sendRequest/store MultiOpQueryer.client": {1,
 		"lazy default `if q.client == nil { q.client = &http.Client{} }`: two chunks of one Query can both see nil and both store an equivalent empty client — a benign data race (every stored value behaves the same and the default factory always sets a client), recorded rather than silenced"},
+}
+
+// ownerFieldOfLoad: v is the value of a field (`x.f` loaded), possibly re-typed; the field's address.
+func ownerFieldOfLoad(v ssa.Value) *ssa.FieldAddr {
+	ld, ok := unwrap(v).(*ssa.UnOp)
+	if !ok || ld.Op != token.MUL {
+		return nil
+	}
+	fa, _ := ld.X.(*ssa.FieldAddr)
+	return fa
 }
 
 // ruleFanoutOwner (R3i): the workers of a fan-out do not write the object whose method started
@@ -732,8 +1484,19 @@ func ruleFanoutOwner(r *Run) {
 					if f, ok := x.Addr.(*ssa.FieldAddr); ok {
 						fa, what = f, "store"
 					}
+				case *ssa.MapUpdate:
+					// a map held in a field of the owner: concurrent map writes are fatal, and
+					// what a sibling reads from it depends on timing
+					if f := ownerFieldOfLoad(x.Map); f != nil {
+						fa, what = f, "map update"
+					}
 				case ssa.CallInstruction:
 					c := x.Common()
+					if b, isB := c.Value.(*ssa.Builtin); isB && (b.Name() == "delete" || b.Name() == "clear") && len(c.Args) > 0 {
+						if f := ownerFieldOfLoad(c.Args[0]); f != nil {
+							fa, what = f, "map "+b.Name()
+						}
+					}
 					if strings.HasPrefix(calleeName(c), "sync/atomic.") && len(c.Args) > 0 {
 						if f, ok := c.Args[0].(*ssa.FieldAddr); ok {
 							fa, what = f, calleeName(c)
@@ -761,7 +1524,7 @@ func ruleFanoutOwner(r *Run) {
 			}
 		}
 		if bad == 0 {
-			r.OK(rule, fnName(fn), "workers leave "+shortStruct(owner)+" alone", r.P.pos(call.Pos()), fmt.Sprintf("none of the %d functions reachable from the map function stores to a field of the owner or passes one to sync/atomic", len(fs)))
+			r.OK(rule, fnName(fn), "workers leave "+shortStruct(owner)+" alone", r.P.pos(call.Pos()), fmt.Sprintf("none of the %d functions reachable from the map function stores to a field of the owner, updates a map held in one or passes one to sync/atomic", len(fs)))
 		}
 	}
 	r.AtLeast(rule, "fan-outs started by methods", n, 3)
